@@ -116,6 +116,10 @@ pub fn generate(tier: Tier, rng: &mut Rng, sink: &mut dyn FnMut(RtCase)) {
         crate::GEN_PANICKED.store(true, std::sync::atomic::Ordering::SeqCst);
         eprintln!("generator family gen_tokio panicked");
     }
+    if std::panic::catch_unwind(std::panic::AssertUnwindSafe(|| gen_tokio_multi(&mut g))).is_err() {
+        crate::GEN_PANICKED.store(true, std::sync::atomic::Ordering::SeqCst);
+        eprintln!("generator family gen_tokio_multi panicked");
+    }
     if std::panic::catch_unwind(std::panic::AssertUnwindSafe(|| gen_selfsig(&mut g))).is_err() {
         crate::GEN_PANICKED.store(true, std::sync::atomic::Ordering::SeqCst);
         eprintln!("generator family gen_selfsig panicked");
@@ -1785,6 +1789,45 @@ fn gen_tokio_selfsig(g: &mut Gen) {
     }
 }
 
+/// tokio-hist / tokio-spair: several streams on one graph value inside ONE tokio task (one
+/// cooperative budget): back to back without yielding to the runtime (`H`), or two side by side
+/// under `join!` (`Z`); monitors only (fresh-graph / alone oracles run in runtimes of their own).
+fn gen_tokio_multi(g: &mut Gen) {
+    let shapes: Vec<(usize, Vec<(usize, usize)>)> = vec![
+        (30, (1..30).filter(|i| i % 10 != 0).map(|i| (i - 1, i)).collect()),
+        (40, Vec::new()),
+        (70, (1..70).map(|i| (0, i)).collect()),
+        (200, (1..200).filter(|i| i % 50 != 0).map(|i| (i - 1, i)).collect()),
+    ];
+    for (n, edges) in &shapes {
+        let ops = plain_ops(*n, edges);
+        for rev in [false, true] {
+            for runs in [2usize, 3, 5, 8] {
+                let cfg = StreamCfg { rev, int: false, strat: Strat::Non };
+                let body: Vec<Run> = (0..runs)
+                    .map(|j| {
+                        let mut c = cfg.clone();
+                        c.rev = rev ^ (j % 3 == 2);
+                        // hold 0 only: with FnRefs held, when the consumer drops them depends on
+                        // spurious `Pending`s, i.e. on the budget, not on the library
+                        Run::Stream(c, vec![SEv::Tokio(0)])
+                    })
+                    .collect();
+                g.emit("tokio-hist", &ops, Body::H(body));
+            }
+            for (variant, (ha, hb)) in [(0usize, 0usize), (0, 0), (0, 0)].into_iter().enumerate() {
+                let a = StreamCfg { rev, int: false, strat: Strat::Non };
+                let b = StreamCfg { rev: !rev && variant == 1, int: variant == 2, strat: Strat::Non };
+                g.emit(
+                    "tokio-spair",
+                    &ops,
+                    Body::Z(a, b, vec![(false, SEv::Tokio(ha)), (true, SEv::Tokio(hb))]),
+                );
+            }
+        }
+    }
+}
+
 fn gen_tokio(g: &mut Gen) {
     // calls: k succeeding roots, one failing root F, a child C of F; F inserted first or last
     let ks: Vec<usize> = match g.tier {
@@ -1895,11 +1938,19 @@ fn gen_share(g: &mut Gen) {
             cfg.with = true;
             cfg.strat = strat;
             cfg.imm.clear();
-            let mut evs = vec![ev(CallEvKind::Settle)];
+            // every third history: the signal is sent before the first call is polled at all
+            let pre_sig = j == 0 && k % 3 == 1;
+            let mut evs = if pre_sig {
+                vec![CallEv::nosettle(CallEvKind::Interrupt), ev(CallEvKind::Settle)]
+            } else {
+                vec![ev(CallEvKind::Settle)]
+            };
             {
                 let mut run = CallRun::new_shared(gref(&mut graph, cfg.mutable), &cfg, tx.clone(), state.reborrow());
-                run.apply(&evs[0]);
-                let mut signalled = j > 0;
+                for e in &evs {
+                    run.apply(e);
+                }
+                let mut signalled = j > 0 || pre_sig;
                 let cap = 6 * n + 12;
                 while evs.len() < cap && !run.ended() && run.status() == Status::Pending {
                     let in_flight = run.in_flight();
